@@ -25,7 +25,7 @@ Internal == \/ \E j \in Jobs : WShut2(j) \/ WShut3(j) \/ SCheck(j) \/ SListen(j)
 HookKeys == {<<"job.wake", "c">>, <<"job.request_stop", "m">>, <<"job.request_stop", "p">>, <<"job.closing", "c">>,
              <<"job.await_return", "c">>}
             \cup {<<k, j>> : k \in {"job.wake", "srv.shutdown.begin", "job.closing", "srv.start.begin", "srv.start.end"}, j \in Jobs}
-            \cup {<<k, c>> : k \in {"prove.enter", "prove.decoded", "prove.proved", "prove.respond"}, c \in Clients}
+            \cup {<<k, c>> : k \in {"prove.enter", "prove.read", "prove.decoded", "prove.proved", "prove.respond"}, c \in Clients}
 HookAct(k) ==
   CASE k = <<"job.wake", "c">> -> CWake
     [] k = <<"job.request_stop", "m">> -> CReqM
@@ -38,12 +38,12 @@ HookAct(k) ==
     [] k[1] = "srv.start.begin" -> SBegin(k[2])
     [] k[1] = "srv.start.end" -> SRet(k[2])
     [] k[1] = "prove.enter" -> HEnter(k[2])
-    [] k[1] = "prove.decoded" -> HDecode(k[2]) /\ req[k[2]].body # "malformed"
+    [] k[1] = "prove.read" -> HRead(k[2])
+    [] k[1] = "prove.decoded" -> HDecode(k[2]) /\ pcC'[k[2]] = "decoded"
     [] k[1] = "prove.proved" -> HProve(k[2])
-    [] k[1] = "prove.respond" -> \/ HRespond(k[2])
-                                 \/ (HDecode(k[2]) /\ req[k[2]].body = "malformed" /\ FALSE)
+    [] k[1] = "prove.respond" -> HRespond(k[2])
 \* the malformed-body path has no decoded/proved hook: decode failure is an eager internal step
-InternalDecodeFail == \E c \in Clients : HDecode(c) /\ req[c].body = "malformed"
+InternalDecodeFail == \E c \in Clients : HDecode(c) /\ pcC'[c] = "respond"
 InternalAll == Internal \/ InternalDecodeFail
 
 Waiting == {k \in HookKeys : ENABLED HookAct(k)}
